@@ -57,7 +57,7 @@ CLAIMED = {
  "C20": dict(engine="factory", technique="TLC model checking of Factory.tla with an actions-per-instant bound (F_C20_FiniteInstant) + TLC judgement of the outcome of every enumerated valid / invalid configuration run on the real classes (T_C20_NoCrash, T_C20_FiniteInstant, T_C20_Rejects)",
    text="Every enumerated valid configuration runs to T without exception and with a bounded number of kernel events per instant; every configuration of the six listed invalid classes is rejected at construction or by an error during the run. One recorded known finding (conveyor can_put/can_get).",
    ref="5 C20"),
- "C12": dict(engine="belt", technique="TLC model checking of the positional reference model ConveyorRef.tla (R_C12_*; it also proves the closed forms the trace oracle uses) and of the slotted belt store as a kind of Store.tla (M_C12_Travel; its exported graph is walked on the real class) + TLC trace validation (Trace_Conveyor.tla, T_C12_*) of scripted producer/consumer runs of the real continuous and slotted conveyors",
+ "C12": dict(engine="belt", technique="TLC model checking of the positional reference model ConveyorRef.tla (R_C12_*; it also proves the closed forms the trace oracle uses) and of the slotted belt store as a kind of Store.tla (M_C12_Travel; its exported graph is walked on the real class; the walk / random / scenario traces are judged with T_C12_MinTravelS, T_C12_OrderS) + TLC trace validation (Trace_Conveyor.tla, T_C12_*) of scripted producer/consumer runs of the real continuous and slotted conveyors",
    text="Order, capacity, entry spacing, minimum travel time and exact travel time when never stalled: invariants / action properties of the reference conveyor for several geometries and both modes; on the implementation every event of every scripted run (regular, bursty, irregular arrivals on the tick grid x immediate / late / mixed service x 3 geometries x both classes x both modes + seeded random scripts) is judged by TLC. One recorded known finding (two grants in one instant).",
    ref="5 C12, 3.4"),
  "C13": dict(engine="belt", technique="TLC model checking of ConveyorRef.tla (R_C13_*: frozen belt, close-up, no overlap, and the closed forms offer = enter + L + stalled time / offer = max(enter + L, take(pred) + Slot)) + TLC trace validation (T_C13_NoAdmit, T_C13_Frozen, T_C13_CloseUp, T_C13_AdmitToCap) of runs of the real conveyors",
